@@ -1,4 +1,5 @@
 // crate header of every bundle
+#![feature(allocator_api)]
 #![allow(unused_imports, unused_variables, dead_code, unused_macros, non_snake_case, unused_mut, unreachable_code, unused_parens)]
 use vstd::prelude::*;
 use vstd::std_specs::cmp::*;
